@@ -19,8 +19,9 @@ Laws ==
     /\ (Len(c) = 1 /\ e.op = "LessThanOrEqual" /\ Definite(ex) =>
           ex = {Bool(TT \in One("LessThan", e.args[1], e.args[2]) \/ TT \in One("Equals", e.args[1], e.args[2]))})
     /\ (Len(c) = 1 /\ e.op = "Equals" /\ ex = {TT} =>
-          One("LessThan", e.args[1], e.args[2]) = {FF} /\ One("GreaterThan", e.args[1], e.args[2]) = {FF}
-          /\ One("Equals", e.args[2], e.args[1]) = {TT})
+          /\ One("Equals", e.args[2], e.args[1]) = {TT}
+          /\ (Definite(One("LessThan", e.args[1], e.args[2])) => One("LessThan", e.args[1], e.args[2]) = {FF})
+          /\ (Definite(One("GreaterThan", e.args[1], e.args[2])) => One("GreaterThan", e.args[1], e.args[2]) = {FF}))
     /\ (Len(c) = 1 /\ e.op = "LessThan" /\ ex = {TT} => One("GreaterThan", e.args[2], e.args[1]) = {TT})
     /\ (Len(c) = 1 /\ e.op = "Between" /\ Definite(ex) /\ Definite(One("GreaterThanOrEqual", e.args[1], e.args[2]))
           /\ Definite(One("LessThanOrEqual", e.args[1], e.args[3])) =>
